@@ -262,3 +262,73 @@ pub fn o_count(sc: &Scenario, r: &RunResult) -> Vec<Finding> {
     }
     out
 }
+
+/// O-transparent over a whole host history: every op either equals the reference op or ends in a
+/// violation the configuration can produce; the bytes an op wrote equal the reference op's bytes,
+/// or are a prefix of them if the op ended in a violation. Ops that could not run because an
+/// earlier op failed (no scope) are skipped.
+pub fn o_transparent_ops(sc: &Scenario, reference: &RunResult, r: &RunResult) -> Vec<Finding> {
+    let mut out = vec![];
+    let can = producible(sc);
+    let n = reference.ops.len().min(r.ops.len());
+    let seg = |rr: &RunResult, i: usize| -> (usize, usize) {
+        let start = if i == 0 { 0 } else { rr.ops[i - 1].out_len };
+        (start.min(rr.out.len()), rr.ops[i].out_len.min(rr.out.len()))
+    };
+    for i in 0..n {
+        let a = &reference.ops[i].outcome;
+        let b = &r.ops[i].outcome;
+        let (rs, re) = seg(reference, i);
+        let (s, e) = seg(r, i);
+        let ref_bytes = &reference.out[rs..re];
+        let bytes = &r.out[s..e];
+        match b {
+            Outcome::Violation(v) => {
+                let k = kind_of(v);
+                if !can.iter().any(|c| c == k) {
+                    out.push((
+                        "transparent".to_string(),
+                        format!("impossible violation {k}"),
+                        format!("host op {i}: got {k}, but the configuration can only produce {can:?}"),
+                    ));
+                }
+                // natives may go on evaluating sibling elements after a violation fired, so a strict
+                // prefix is more than the property states; but nothing may be written that the
+                // unlimited run does not write (e.g. a catcher's fallback branch)
+                if !is_subsequence(bytes, ref_bytes) {
+                    out.push((
+                        "transparent".to_string(),
+                        "after a violation something was written that the unlimited run never writes".to_string(),
+                        format!("host op {i}: wrote {:?}, reference wrote {:?}", trim(&String::from_utf8_lossy(bytes), 80), trim(&String::from_utf8_lossy(ref_bytes), 80)),
+                    ));
+                }
+            }
+            Outcome::Crash(_) => {}
+            Outcome::Host(_) => {}
+            _ => {
+                if matches!(a, Outcome::Violation(_) | Outcome::Crash(_) | Outcome::Host(_)) {
+                    continue;
+                }
+                if a != b {
+                    out.push((
+                        "transparent".to_string(),
+                        "result differs from unlimited run".to_string(),
+                        format!("host op {i}: {} with limits/faults, {} without", trim(&format!("{b:?}"), 160), trim(&format!("{a:?}"), 160)),
+                    ));
+                } else if bytes != ref_bytes {
+                    out.push((
+                        "transparent".to_string(),
+                        "output differs from unlimited run".to_string(),
+                        format!("host op {i}: wrote {:?}, reference wrote {:?}", trim(&String::from_utf8_lossy(bytes), 80), trim(&String::from_utf8_lossy(ref_bytes), 80)),
+                    ));
+                }
+            }
+        }
+    }
+    out
+}
+
+fn is_subsequence(needle: &[u8], hay: &[u8]) -> bool {
+    let mut it = hay.iter();
+    needle.iter().all(|b| it.any(|h| h == b))
+}
